@@ -86,7 +86,16 @@ diagram exported several times in a row inside one program under different name 
 memo of `to_dot_string` keyed by the diagram, the pruning flag and the NUMBER of names answered with the earlier labels; the
 harness keeps one worker thread per shard, so state of that kind survives between the cases of a program, and C20 now has a
 relabelling-storm family that mixes `to_dot_string`, `write_as_dot_string` and the anonymous-name entry point.
-First-run rates per wave: 80/100 (waves 1–2), 7/12, 19/30, 21/30, 26/30, 23/30, 21/22, 5/6.
+A second group of eight (`*-w9b-*`) was asked specifically for STATE KEPT BETWEEN CALLS — thread-local memos and scratch buffers
+introduced as optimisations and keyed by less than everything the answer depends on; 5 of 8 were caught by the first run, the
+three misses each needed two consecutive calls whose arguments COLLIDE under a cheap key: (xlvi) the same decision nodes counted
+under different variable counts (only the terminal records differ; C09 universe storms), (xlvii) `mk_sat_exactly_k` and
+`mk_sat_up_to_k` alternating on one variable list with rising thresholds (C16 threshold storms), (xlviii) projections of one
+operand over lists agreeing in length, smallest and largest entry and sum, or differing by order or one repeated entry (C03
+list storms). (The eight agents shared one `git stash` through their worktrees and popped each other's changes; every patch was
+therefore confirmed on its own by `tools/confirm_seeded.sh`, which starts from a clean checkout — later briefs must say
+`git diff > p; git checkout -- src; …; git apply p` instead of `git stash`.)
+First-run rates per wave: 80/100 (waves 1–2), 7/12, 19/30, 21/30, 26/30, 23/30, 21/22, 5/6 + 5/8.
 
 | seeded change | property | needs | caught | by |
 |---|---|---|---|---|
